@@ -110,6 +110,8 @@ func c01run(r *hk.Reporter, c *c01case) {
 	}
 	if strings.HasPrefix(c.label, "history:") {
 		r.Eval(fmt.Sprintf("%s:related-key-history,keylen=%d", c.entry, len(c.priv)))
+	} else if strings.HasPrefix(c.label, "rare-nonce-") {
+		r.Eval(fmt.Sprintf("%s:%s,lz(r)=%d,consumed=%d", c.entry, c.label, lzClass(rI), rd.off))
 	} else if strings.HasPrefix(c.label, "retry-after-") {
 		r.Eval(fmt.Sprintf("%s:%s,consumed=%d", c.entry, c.label, rd.off))
 	} else {
@@ -205,6 +207,18 @@ func TestVerifC01(t *testing.T) {
 				cases = append(cases, &c01case{entry: "hashed", d: d, priv: ref.B32(d), e: e, stream: stream, chunk: []int{0, 1, 7}[(ki+rep)%3], label: "retry-after-" + rule})
 			}
 		}
+	}
+	// (a3) nonces from the rare-x1 fixture with digests at the boundaries where e + x1 crosses 2n / n:
+	// signer and verifier both have to reduce e + x1 by the right multiple of n
+	rare, rerr := rareNonceCases(rng)
+	if rerr != nil {
+		r.Inconclusive("rare-nonce fixture: " + rerr.Error())
+		return
+	}
+	for i, rc := range rare {
+		d := keys[(i*5)%len(keys)]
+		stream := append(append(ref.B32(rc.k), ref.B32(randScalar(rng))...), rng.Bytes(64)...)
+		cases = append(cases, &c01case{entry: "hashed", d: d, priv: ref.B32(d), e: rc.e, stream: stream, chunk: []int{0, 1, 7}[i%3], label: rc.label})
 	}
 	// (b) random round trips through all three entry points
 	nRand := hk.N(3000, 60000)
